@@ -20,9 +20,9 @@ mv /tmp/demo_$name.go $demo
 echo "== with change: demo must FAIL"
 go test -count=1 -run 'Seed' $pkgdir 2>&1 | tail -4
 echo "== without change: demo must PASS"
-git stash -q
+git apply -R /tmp/seed_patch_$name.diff   # (no git stash: the stash is shared by all worktrees)
 go test -count=1 -run 'Seed' $pkgdir 2>&1 | tail -2
-git stash pop -q
+git apply /tmp/seed_patch_$name.diff
 echo "== checks against the change applied to /repo"
 EV=/tmp/evalrepo_$name; git -C /repo worktree add -q --detach $EV HEAD && git -C $EV apply /tmp/seed_patch_$name.diff || { echo "patch does not apply"; exit 2; }
 mkdir -p /verif/seeded/$name
